@@ -40,7 +40,10 @@ ContainOk(e) ==
 AliasOk(e) ==
   LET S == 1..e.n  G == {<<i, e.target[i]>> : i \in {j \in S : e.target[j] # 0}}  loop == OnCycle(G, S) IN
   /\ e.accepted <=> (loop = {})                               \* alias loops are rejected, loop-free alias chains accepted
-  /\ ToSet(e.e019) = loop                                     \* exactly the aliases that loop back on themselves
+  \* a self-referential-alias report names an alias that has no finite type: one on a loop or one that leads into a loop
+  \* (the statement asks for rejection only; which aliases are named is not part of it - an earlier version of this
+  \* check demanded exactly the aliases on a loop, which is more than the property states)
+  /\ ToSet(e.e019) \subseteq {a \in S : a \in loop \/ \E b \in loop : b \in Reach(G, {a}, {})}
 
 InheritOk(e) ==
   LET S == 1..e.n  G == ToSet(e.edges)  loop == OnCycle(G, S) IN
